@@ -54,6 +54,11 @@ def var_kwargs(spec):
 def operand_input(lens, spec):
     data = dict(spec.get('input', {}))
     data['optic'] = lens
+    if isinstance(data.get('distribution'), list):
+        # a Distribution object created by the caller and kept in the
+        # operand's input data for the whole life of the problem
+        from engines.interleave import mk_dist
+        data['distribution'] = mk_dist(data['distribution'])
     if 'wi' in data:
         ws = lens.wavelengths.wavelengths
         data['wavelength'] = ws[data.pop('wi') % len(ws)].value
@@ -848,6 +853,12 @@ def gen_operand(ch, m):
         inp = {'surface_number': n - 1, 'Hx': 0.0,
                'Hy': ch.pick([0.0, 1.0]), 'num_rays': ch.randint(1, 2),
                'wi': ch.randint(0, 2), 'distribution': 'hexapolar'}
+        if ch.chance(0.25):
+            nn = ch.randint(5, 12)
+            inp['distribution'] = ch.pick(
+                [['random', ch.randint(0, 50), nn], ['obj', 'uniform', 4],
+                 ['obj', 'ring', nn]], tag='opdist')
+            inp['num_rays'] = ch.pick([nn, nn + 3, 3])
     elif t == 'OPD_difference':
         inp = {'Hx': 0.0, 'Hy': 0.0, 'num_rays': ch.randint(1, 2),
                'wi': ch.randint(0, 2)}
